@@ -456,6 +456,53 @@ def c16(ctx):
                           for c in cases[50:53] if not c.get("panic")]
 
 
+# ------------------------------------------------------------------------------------ C19
+
+@check("C19")
+def c19(ctx):
+    props.check_props_file(ctx, "Props/C19.v")
+    cases = special_mode_cases(ctx, "c19", ["-n", "1200" if ctx.quick() else "60000"])
+    kinds = Counter()
+    ev = 0
+    distinct = set()
+    for c in cases:
+        ev += 1
+        kinds[(c["kind"], c["cond"])] += 1
+        rep = {"kind": c["kind"], "cond": c["cond"], "what": c["desc"][:1500], "calls": c["calls"],
+               "got": c["got"][:600], "want": c["want"][:600]}
+        if c.get("panic"):
+            ctx.violation("conditional helper panicked / misbehaved: " + c["panic"], rep)
+            continue
+        if c["got"] != c["want"] or c["got_args"] != c["want_args"]:
+            ctx.violation("the conditional helper does not render like the plain if/else", rep)
+            continue
+        if c["calls"] >= 0 and c["calls"] != (1 if c["cond"] else 0):
+            ctx.violation(f"the supplied function was called {c['calls']} times", rep)
+            continue
+        if not c["recv_same"]:
+            ctx.violation("the receiver was changed by the conditional helper", rep)
+            continue
+        distinct.add((c["kind"], c["cond"], c["desc"]))
+    # And / Or with nil operands also against the model: same value as without the nils
+    reqs, idx = [], []
+    for i, c in enumerate(cases):
+        if c.get("dump"):
+            reqs += [f"(render T F nil {c['dump']})", f"(render T F nil {c['dump_want']})"]
+            idx.append(i)
+    ans = corr.model_answers(reqs)
+    bad = [cases[i]["desc"] for k, i in enumerate(idx) if ans[2 * k] != ans[2 * k + 1] or ans[2 * k].startswith("DECODEFAIL")]
+    ctx.obligation("model: And/Or with nil operands equals And/Or without them", not bad, json.dumps(bad[:3]))
+    ctx.cov["traces_validated_against_impl"] = len(idx)
+    ctx.cov["evaluations"] = ev
+    ctx.cov["distinct_nontrivial"] = len(distinct)
+    ctx.cov["input_distribution"] = {f"{k[0]} cond={k[1]}": v for k, v in sorted(kinds.items())}
+    ctx.cov["rule"] = ("receivers (select, update, JSON object, JSON batch builder) generated through the fluent API x both "
+                       "conditions x callback functions built from one random fluent method each (call counter) and nil "
+                       "functions; And/Or with nil at random positions among up to 5 operands; both sides of the law are "
+                       "rendered and compared (sql, args); distinct = (helper, condition, receiver+function program)")
+    ctx.cov["samples"] = [{"kind": c["kind"], "cond": c["cond"], "program": c["desc"][:300]} for c in cases[:3]]
+
+
 # ------------------------------------------------------------------------------------ C14
 
 VALIDATION_PREFIXES = ("identifier: invalid", "type: invalid", "case: no conditions given")
